@@ -207,6 +207,26 @@ def helper_visits_all(mod: Mod, name: str, is_collector) -> bool:
 # ------------------------------------------------------------------------------------------ operators in a slice
 
 
+EXACT_REPRESENTATIONS = {"nsimplify", "Rational", "sympify", "S", "Integer"}
+
+
+def same_exponent(cfg: CFG, n, value_exp: ast.AST, dim_exp: ast.AST) -> bool:
+    """the dimension is raised to the SAME number as the value: the identical expression, or one that derives from it only through exact re-representations
+    (nsimplify / Rational of the value's exponent, possibly chosen by an `.is_Float`-style test) - never through arithmetic or another variable"""
+    if norm(value_exp) == norm(dim_exp):
+        return True
+    sv, sd = cfg.slice(n, [value_exp]), cfg.slice(n, [dim_exp])
+    base_names = {x.id for x in ast.walk(value_exp) if isinstance(x, ast.Name)}
+    dim_names = {x.id for e in sd.exprs for x in ast.walk(e) if isinstance(x, ast.Name) and isinstance(x.ctx, ast.Load)}
+    if not base_names or not (base_names <= dim_names):
+        return False
+    extra_calls = {c.split(".")[-1] for c in (sd.calls - sv.calls)} - EXACT_REPRESENTATIONS
+    arithmetic = any(isinstance(x, (ast.BinOp, ast.UnaryOp)) and not isinstance(getattr(x, "op", None), ast.Not) for e in sd.exprs if e is not dim_exp or True
+                     for x in ast.walk(e) if not any(x is y for ve in sv.exprs for y in ast.walk(ve)))
+    # the value's own exponent expression may contain arithmetic (e.g. -1 * exp); what the dimension adds on top must not
+    return not extra_calls and not arithmetic and (sd.params | sd.free) - {"nsimplify", "Rational", "sympify", "S", "Integer", "True", "False"} <= (sv.params | sv.free | dim_names)
+
+
 def ops_in_slice(cfg: CFG, n, expr: ast.AST) -> set:
     sl = cfg.slice(n, [expr])
     ops = set()
@@ -307,11 +327,20 @@ def run_collector_rules(run: Run, w: World, modname: str, sum_like_helper: Optio
         tg = lp.ast.target
         if isinstance(tg, ast.Tuple) and len(tg.elts) == 2 and all(isinstance(e, ast.Name) for e in tg.elts):
             tname, hname = tg.elts[0].id, tg.elts[1].id
-            for s in lp.ast.body:
-                if isinstance(s, ast.If) and isinstance(s.test, ast.Call) and dotted(s.test.func) == "isinstance" and len(s.test.args) == 2 \
-                        and dotted(s.test.args[1]) == tname and len(s.body) == 1 and isinstance(s.body[0], ast.Return) \
-                        and isinstance(s.body[0].value, ast.Call) and dotted(s.body[0].value.func) == hname \
-                        and [dotted(a) for a in s.body[0].value.args] == [dotted(s.test.args[0])]:
+            # a return of handler(node) inside the loop whose only path condition is isinstance(node, type_) - written as `if isinstance: return` or
+            # as `if not isinstance: continue` followed by the return
+            for r_ in [x for st_ in lp.ast.body for x in ast.walk(st_) if isinstance(x, ast.Return)]:
+                v_ = r_.value
+                if not (isinstance(v_, ast.Call) and dotted(v_.func) == hname and len(v_.args) == 1):
+                    continue
+                conds = [(t_, p_) for t_, p_ in (conditions_for(ent, r_, stop=lp.ast) or []) if not isinstance(t_, str)]
+                norm_conds = []
+                for t_, p_ in conds:
+                    while isinstance(t_, ast.UnaryOp) and isinstance(t_.op, ast.Not):
+                        t_, p_ = t_.operand, not p_
+                    norm_conds.append((t_, p_))
+                if len(norm_conds) == 1 and norm_conds[0][1] is True and isinstance(norm_conds[0][0], ast.Call) and dotted(norm_conds[0][0].func) == "isinstance" \
+                        and len(norm_conds[0][0].args) == 2 and dotted(norm_conds[0][0].args[1]) == tname and dotted(norm_conds[0][0].args[0]) == dotted(v_.args[0]):
                     ok = True
     if not ok:
         run.violate("S2", f"{modname}:{entry}:dispatch", mod, ent, "the entry point no longer dispatches `for type_, collector in _cases.items(): if isinstance(expr, type_): return collector(expr)`")
